@@ -31,6 +31,8 @@ import Rooc.Proofs.LinMain
 import Rooc.Proofs.LinCounter
 import Rooc.Proofs.LinBridgeCounter
 import Rooc.Proofs.LinDExamples2
+import Rooc.Proofs.LinTolCounter
+import Rooc.Proofs.LinWire
 namespace Rooc.Props.C01
 open Rooc Rooc.Lin
 open Rooc.Lin.Gadget (B01 DomMax DomMin)
@@ -811,5 +813,31 @@ theorem c01_logic_counterexample :
   lo_needed
 
 end StageD
+
+/-! ## which hypotheses of the pipeline theorems can be dropped -/
+
+section Hypotheses
+variable [FloorRing K]
+open Rooc.BoundsProofs
+
+/-- **`t < 1` is sharp** (for models with `IntegerRange` variables): for EVERY tolerance `t ≥ 1` and every step
+limit, `min x`, `x ∈ IntegerRange(0, 5)` compiles, every other hypothesis of `c01_compile_logic_partial` holds,
+the linear model accepts `x = 6` and the source model does not.  (`enforceable` rounds the box to
+`[⌈0 − t⌉, ⌊5 + t⌋] ⊇ [−1, 6]` and `apply_to_domain` publishes an even wider `IntegerRange`; the only shipped
+tolerance, `DEFAULT_TOLERANCE = 1e-9`, is far below the threshold.) -/
+theorem c01_tolerance_counterexample {t : K} (ht : 1 ≤ t) (maxSteps : Nat) :
+    ∃ (m : Model (Ext K)) (lm : LinModel (Ext K)) (ρ : String → K),
+      Compile.linearize m (.fin t) maxSteps = .ok lm ∧
+      LogicModel m m.domain ∧ AssertShape m ∧ DeclOK m.domain ∧
+      linFeasible lm ρ = true ∧ ¬ srcFeasible m ρ = true := by
+  obtain ⟨lm, ρ, h1, h2, h3⟩ := tolerance_ge_one_breaks (K := K) ht maxSteps
+  exact ⟨exI, lm, ρ, h1, exI_hyps.1, exI_hyps.2.1, exI_hyps.2.2, h2, h3⟩
+
+/-- **`AssertShape` is discharged for every model that comes over the wire** (`Model.dec`, the decoder the
+checker uses): a bare assertion is always stored as `lhs = 1`. -/
+theorem assertShape_of_wire [Wire (Ext K)] {s : Sexp} {m : Model (Ext K)} (h : Model.dec s = some m) :
+    AssertShape m := assertShape_of_dec h
+
+end Hypotheses
 
 end Rooc.Props.C01
